@@ -514,22 +514,10 @@ func (c *chroniclerV2) ensureWriter() error {
 		return nil
 	}
 
-	// Check if this is a new file (doesn't exist yet)
-	isNewFile := false
-	if _, err := os.Stat(c.hydFilePath); os.IsNotExist(err) {
-		isNewFile = true
-	}
-
-	var writer *v2.FileWriter
-	var err error
-
-	if isNewFile && c.swampName != "" {
-		// New file: use V3 format with name in header area
-		writer, err = v2.NewFileWriterWithName(c.hydFilePath, c.maxBlockSize, c.swampName)
-	} else {
-		// Existing file: preserve format (V2 or V3)
-		writer, err = v2.NewFileWriter(c.hydFilePath, c.maxBlockSize)
-	}
+	// NewFileWriterWithName creates a V3 file with the name in the header area
+	// when the file does not exist (or its creation was interrupted), and
+	// preserves the format (V2 or V3) of an existing file.
+	writer, err := v2.NewFileWriterWithName(c.hydFilePath, c.maxBlockSize, c.swampName)
 	if err != nil {
 		return err
 	}
